@@ -1276,6 +1276,11 @@ class Executor:
         if o is typing.cast:
             return args[1]
         if o is sorted:
+            rev = kwargs.get("reverse")
+            if rev is not None and not (isinstance(rev, K) and rev.v is False):
+                raise Unsupported("sorted(..., reverse=...) is not modelled")      # it used to be read as ascending
+            if set(kwargs) - {"key", "reverse"}:
+                raise Unsupported("sorted() with unknown keyword arguments")
             return self.sorted(st, args[0], kwargs.get("key"))
         if o is str:
             a = args[0]
